@@ -97,8 +97,15 @@ def rng(*salt):
     return random.Random(int.from_bytes(h[:8], 'big'))
 
 
+def _canon_default(o):
+    # a set has no order: its canonical text must not depend on the iteration order of this process
+    if isinstance(o, (set, frozenset)):
+        return {'__set__': sorted(canon(x) for x in o)}
+    return str(o)
+
+
 def canon(obj):
-    return json.dumps(obj, sort_keys=True, default=str, separators=(',', ':'))
+    return json.dumps(obj, sort_keys=True, default=_canon_default, separators=(',', ':'))
 
 
 def digest(obj):
